@@ -170,7 +170,15 @@ theorem step_inv (p : Pipe) (op : PipeOp) (hI : Inv p) (hN : NoStuck p) (hok : t
       · exact ⟨⟨hI.ord, hI.le, hI.cl, by simp [disconnect]⟩, by intro hv; simp [disconnect] at hv⟩
       · exact ⟨hI, hN⟩
   | drop =>
-    exact ⟨⟨hI.ord, hI.le, hI.cl, by simp [Pipe.step, disconnect]⟩, by intro hv; simp [Pipe.step, disconnect] at hv⟩
+    simp only [Pipe.step, peerClosed]
+    split
+    · exact ⟨hI, hN⟩
+    · exact ⟨⟨hI.ord, hI.le, hI.cl, by simp [disconnect]⟩, by intro hv; simp [disconnect] at hv⟩
+  | kernel n =>
+    simp only [Pipe.step, kernel]
+    split
+    · exact ⟨hI, hN⟩
+    · exact ⟨⟨hI.ord, hI.le, hI.cl, hI.keys⟩, hN⟩
 
 theorem run_inv (p : Pipe) (ops : List PipeOp) (hI : Inv p) (hN : NoStuck p) (hok : traceOk p ops = true) :
     Inv (p.run ops) ∧ NoStuck (p.run ops) := by
@@ -269,6 +277,140 @@ theorem step_fromCommits (done : List PipeOp) (p : Pipe) (op : PipeOp) (h : From
     · split
       · intro x hx; simp [disconnect] at hx; exact lift x (Or.inl hx)
       · exact lift
-  | drop => intro x hx; simp [Pipe.step, disconnect] at hx; exact lift x (Or.inl hx)
+  | drop =>
+    simp only [Pipe.step, peerClosed]
+    split
+    · exact lift
+    · intro x hx; simp [disconnect] at hx; exact lift x (Or.inl hx)
+  | kernel n =>
+    simp only [Pipe.step, kernel]
+    split
+    · exact lift
+    · exact lift
+
+/-! ### send side and tear-down bookkeeping (no hypothesis on the history) -/
+
+theorem flush_grow (f : Nat) (p : Pipe) :
+    (∃ extra, (flush f p).written = p.written ++ extra) ∧ (flush f p).sent = p.sent ∧
+    (flush f p).disconnects = p.disconnects := by
+  induction f generalizing p with
+  | zero => exact ⟨⟨[], by simp [flush]⟩, rfl, rfl⟩
+  | succ k ih =>
+    unfold flush
+    split
+    · exact ⟨⟨[], by simp⟩, rfl, rfl⟩
+    · dsimp only
+      split
+      · exact ⟨⟨_, rfl⟩, rfl, rfl⟩
+      · rename_i i r _ _
+        obtain ⟨⟨extra, he⟩, h2, h3⟩ := ih { p with written := p.written ++ [(p.resIndex, r)], resBuff := p.resBuff.filter (fun e => e.1 != p.resIndex), resIndex := p.resIndex + 1 }
+        exact ⟨⟨[(p.resIndex, r)] ++ extra, by rw [he]; simp⟩, h2, h3⟩
+
+theorem commit_grow (p : Pipe) (i : Nat) (r : Bytes) :
+    (∃ extra, (p.commit i r).written = p.written ++ extra) ∧ (p.commit i r).sent = p.sent ∧
+    (p.commit i r).disconnects = p.disconnects ∧ (p.commit i r).valid = p.valid := by
+  unfold commit
+  split
+  · exact ⟨⟨[], by simp⟩, rfl, rfl, rfl⟩
+  · split
+    · dsimp only
+      split
+      · exact ⟨⟨_, rfl⟩, rfl, rfl, rfl⟩
+      · obtain ⟨⟨extra, he⟩, h2, h3⟩ := flush_grow (p.resBuff.length + 1) { p with written := p.written ++ [(i, r)], resIndex := p.resIndex + 1 }
+        exact ⟨⟨[(i, r)] ++ extra, by rw [he]; simp⟩, h2, h3, by rw [flush_valid]⟩
+    · exact ⟨⟨[], by simp⟩, rfl, rfl, rfl⟩
+
+theorem handed_grow {p q : Pipe} (h : ∃ extra, q.written = p.written ++ extra) : p.handed.length ≤ q.handed.length := by
+  obtain ⟨extra, he⟩ := h
+  simp [handed, he]
+
+/-- tear-down happens at most once and exactly when the connection is invalid; the peer never
+has more than was handed over -/
+structure Inv2 (p : Pipe) : Prop where
+  once : p.disconnects = if p.valid then 0 else 1
+  sentLe : p.sent ≤ p.handed.length
+
+theorem inv2_init : Inv2 {} := ⟨rfl, by simp [handed]⟩
+
+theorem step_inv2 (p : Pipe) (op : PipeOp) (h : Inv2 p) : Inv2 (p.step op) := by
+  cases op with
+  | req last => exact ⟨h.once, h.sentLe⟩
+  | commit i r =>
+    obtain ⟨hg, hs, hd, hv⟩ := commit_grow p i r
+    refine ⟨?_, ?_⟩
+    · simp only [Pipe.step, hd, hv]; exact h.once
+    · simp only [Pipe.step, hs]; exact Nat.le_trans h.sentLe (handed_grow hg)
+  | sendComplete =>
+    simp only [Pipe.step, sendComplete]
+    split
+    · exact h
+    · rename_i hv
+      split
+      · have := h.once
+        have hv2 : p.valid = true := by simpa using hv
+        exact ⟨by simp [disconnect, this, hv2], h.sentLe⟩
+      · exact h
+  | drop =>
+    simp only [Pipe.step, peerClosed]
+    split
+    · exact h
+    · rename_i hv
+      have := h.once
+      have hv2 : p.valid = true := by simpa using hv
+      exact ⟨by simp [disconnect, this, hv2], h.sentLe⟩
+  | kernel n =>
+    simp only [Pipe.step, kernel]
+    split
+    · exact h
+    · exact ⟨h.once, by simp [handed]; exact Nat.min_le_right _ _⟩
+
+theorem run_inv2 (p : Pipe) (ops : List PipeOp) (h : Inv2 p) : Inv2 (p.run ops) := by
+  induction ops generalizing p with
+  | nil => exact h
+  | cons op ops ih => exact ih _ (step_inv2 p op h)
+
+/-- without a peer-initiated close or parse failure in the history, a connection that is gone
+has delivered every byte handed to `send` -/
+def NoLoss (p : Pipe) : Prop := p.valid = false → p.sent = p.handed.length
+
+theorem run_noLoss (p : Pipe) (ops : List PipeOp) (h : NoLoss p) (hok : traceOk p ops = true)
+    (hnd : PipeOp.drop ∉ ops) : NoLoss (p.run ops) := by
+  induction ops generalizing p with
+  | nil => exact h
+  | cons op ops ih =>
+    simp only [traceOk, Bool.and_eq_true] at hok
+    simp only [List.mem_cons, not_or] at hnd
+    refine ih (p.step op) ?_ hok.2 hnd.2
+    cases op with
+    | req last => exact h
+    | commit i r =>
+      obtain ⟨hg, hs, _, hv⟩ := commit_grow p i r
+      intro hv'
+      simp only [Pipe.step] at hv' ⊢
+      rw [hv] at hv'
+      -- an invalid connection ignores the commit entirely
+      simp [commit, hv']
+      exact h hv'
+    | sendComplete =>
+      simp only [Pipe.step, sendComplete]
+      split
+      · exact h
+      · rename_i hv
+        split
+        · intro _
+          have := hok.1
+          have hv2 : p.valid = true := by simpa using hv
+          simp only [hv2, Bool.not_true, Bool.false_or, decide_eq_true_eq] at this
+          simpa [disconnect, handed] using this
+        · exact h
+    | drop => exact absurd rfl hnd.1
+    | kernel n =>
+      simp only [Pipe.step, kernel]
+      split
+      · exact h
+      · rename_i hv
+        intro hv'
+        have hv2 : p.valid = true := by simpa using hv
+        simp [hv2] at hv'
 
 end Tbox.C12
